@@ -801,11 +801,17 @@ def merge_case(rng, sess):
     from clematis.engine.cache import LRUCache, merge_caches_deterministic
     from clematis.engine.util.lru_det import DeterministicLRU
 
-    nw = rng.randint(1, 5)
+    nw = rng.choice([1, 2, 3, 4, 5, 5, 12, 13])
+    # worker ids of one type per case: dense ints (>= 10 for the larger pools), sparse / negative ints, floats, tuples, strings
+    scheme = rng.choice(["dense", "dense", "sparse", "float", "tuple", "str"])
+    pool = {"dense": list(range(nw)), "sparse": rng.sample([-10, -2, -1, 0, 2, 9, 10, 11, 19, 20, 100, 101, 1000], min(nw, 13)),
+            "float": rng.sample([-1.5, 0.5, 2.0, 9.5, 10.0, 10.5, 11.0, 20.0, 100.0, 1e3, 1e-3, 2.5, 3.5], min(nw, 13)),
+            "tuple": [(w % 3, w) for w in range(nw)], "str": [f"w{w}" for w in range(nw)]}[scheme]
     workers = []
-    for w in range(nw):
-        items = [(rng.choice(["a", "b", "c", "d", "e", "f"]), (w, j)) for j in range(rng.randint(0, 5))]
-        workers.append((rng.choice([w, (w % 2, w), f"w{w}"]) if False else w, items))
+    for wi, w in enumerate(pool):
+        items = [(rng.choice(["a", "b", "c", "d", "e", "f"]), (wi, j)) for j in range(rng.randint(0, 5))]
+        workers.append((w, items))
+    sess.seen("merge_worker_id_schemes", (scheme, len(pool) >= 11))
     cap = rng.choice([1, 2, 3, 10])
     tkind = rng.choice(["lru", "det"])
     pre = [(rng.choice(["a", "z"]), "pre")] if rng.random() < 0.3 else []
